@@ -19,7 +19,7 @@ CLAIMS = {
         note=TRUST + "Callees outside the verified subset are ASSUMED to terminate without panicking (listed in the evidence as assumed contracts): the midpoint recursion of the line, the unit-cell helpers of the merge (aliased maps), the binary-subdivision altitude helper, the third-party geodesy / convex-distance / radix-tree code. The corridor is verified for layer counts up to 1024 (assumecall restriction). ConvertPointListToProjectedPointList / ConvertProjectedPointListToPointList are not under contract.",
         tech="deductive verification: WP VCs over go/ssa with safety obligations on every instruction, modular callee contracts, SMT", ref="4 C15"),
     "C04": dict(category="other",
-        text="PARTIAL. Proved: the grouping ancestor (ExtendedSpatialID.Higher) is the floor ancestor on every axis for all 36x36 zoom differences and indices of both signs (the defect at f = -1/0 was repaired, see known_findings.txt); MergeExtendedSpatialIds / MergeSpatialIds reject zooms outside 0..35 and malformed IDs exactly, do not panic, and return a duplicate-free list (postcondition of Unique).",
+        text="PARTIAL. Proved: the grouping ancestor (ExtendedSpatialID.Higher) is the floor ancestor on every axis for all 36x36 zoom differences and indices of both signs (the defect at f = -1/0 was repaired, see known_findings.txt); MergeExtendedSpatialIds / MergeSpatialIds reject zooms outside 0..35 and malformed IDs exactly, do not panic, return a duplicate-free list (postcondition of Unique), and return every input that is coarser than the target on either axis unchanged (in canonical spelling).",
         note=TRUST + "NOT decided: region equality, the density rule and idempotence. The merge body keeps aliased unit-cell maps (map[string]*HighSpatialID sharing map[string]struct{}), outside the verified subset; NewUnitDividedSpatialID, NewHighSpatialID, Merge and IsDense are assumed total and otherwise unconstrained.",
         tech="deductive verification of the kernel and of the wrapper's error/duplicate clauses (WP VCs over go/ssa, SMT); remaining clauses not applicable to the technique as built", ref="4 C04"),
     "C06": dict(category="other",
